@@ -84,8 +84,10 @@ TEXT["C02"] = dict(
          "the 33 Safe-DS keywords (table regenerated from the source, T1); every convertible Python name is rendered as an "
          "identifier token under both settings at every emission site that goes through convert+escape (class, attribute, "
          "function, property, parameter, result, enum member, type parameter); package paths and import lines are qualified "
-         "tokens; string literals and @PythonName/@PythonModule bodies are single closed STRING tokens when the value has no "
-         "quote/backslash/newline; documentation comments are single closed comment tokens when the text has no '*/'; with "
+         "tokens; EVERY Python string value (string defaults, Literal values) is written as one closed STRING token - "
+         "string_literal_closed / string_default_value_closed without any hypothesis on the value, after repair d913d69 of a "
+         "genuine defect (values were not escaped); @PythonName/@PythonModule bodies are single closed STRING tokens when the "
+         "name has no quote/backslash/newline; documentation comments are single closed comment tokens when the text has no '*/'; with "
          "kernel-checked counterexamples for each hypothesis (the corresponding known findings)." + GEN_TIE +
          " 'Parses' is decided on the implementation's files by tie/stubparse.py, a recogniser written from the Safe-DS grammar.",
     note=TRUST + " The structural half is Theorems/C02a: a small scanner (Spec/Balance.lean: code/string/comment/back-quote modes, a "
@@ -283,7 +285,9 @@ WHOLE = (" WHOLE TOOL: Model/Pipeline.lean composes root adjustment, discovery, 
          "TEXT and every stub file byte for byte. ")
 WHOLE_THM = {
     "C01": "Theorems/C01b: tool_error_sources (an error of the run comes from discovery, walk, serialisation or generator - "
-           "never from the alias collection, which is total after repair c9b80ef), discovery_error_is_no_files, alias_step_total. "
+           "never from the alias collection, which is total after repair c9b80ef), discovery_error_is_no_files, alias_step_total, "
+           "api_file_error_is_typeError, tool_never_asserts (END TO END: no run ends in an AssertionError - none of the consistency "
+           "guards of visitor, walker or generator can fire, for every input). "
            "Theorems/C01a (analyser half, Proofs/StackDiscipline through every function of the visitor): enter_pushes_one_frame, "
            "leave_pops_its_frame, create_attribute_guard, walk_balanced, analysis_never_asserts, analysis_leaves_empty_stack, "
            "get_api_never_asserts - for EVERY list of modules with definitions nested to any depth, none of the visitor's stack "
